@@ -1015,6 +1015,15 @@ class C09(Property):
     # ------------------------------------------------------------------ model line
     def line(self, case):
         op = case['op']
+        # round 3b: the statement quantifies over VALID parameters only.  What an invalid call does (which exception,
+        # raised when, or whether a later version accepts it: a float `count`, a float window size, a non-positive
+        # size, a negative count / maxsplit, a str / bytes separator that is no single item, mismatched key lists,
+        # invalid chunk_ranges numbers) is left open by the statement, so such a case is outside the domain of the
+        # correspondence as well: no model line, the oracle demands nothing (it still rejects a hang, a changed
+        # input and a list form that differs from the *_iter form).
+        if not self.valid(case):
+            self.stats['outside-domain'] = self.stats.get('outside-domain', 0) + 1
+            return None
         if op == 'chunked':
             return 'chunkedk %s %s %s %s %s' % (case['kind'], ptok(case, 'size'), ptok(case, 'count'),
                                                 opt(case['fill']), nats(case['xs']))
